@@ -928,3 +928,93 @@ pub fn suite_reopen(ctx: &mut Ctx, seed: u64, thorough: bool) {
         }
     }
 }
+
+/// `Handle::reopen` under single injected faults: every index of the unperturbed trace x the errno catalogue,
+/// for handles to a file, a directory and a fifo and a few flag sets.  Same case format as `suite_reopen`, plus
+/// a `fault` line; the oracle demands that a success is a descriptor of the handle's inode.
+pub fn suite_reopen_fault(ctx: &mut Ctx, seed: u64) {
+    use crate::attack::{Fault, Faulter, ERRNOS};
+    use crate::tree::{Entry, Kind, TreeSpec};
+    use pathrs::verif::Interposer;
+    use pathrs::{HandleRef, Root};
+    use std::os::unix::io::{AsFd, BorrowedFd};
+    let mut spec = TreeSpec::default();
+    for (p, k) in [(&b"file"[..], Kind::File), (b"dir", Kind::Dir), (b"fifo", Kind::Fifo)] {
+        spec.entries.push(Entry { path: p.to_vec(), kind: k, mode: 0o644 | if p == b"dir" { 0o111 } else { 0 } });
+    }
+    let flagsets: [i32; 4] = [
+        libc::O_PATH,
+        libc::O_RDONLY | libc::O_NONBLOCK,
+        libc::O_RDWR | libc::O_NONBLOCK,
+        libc::O_RDONLY | libc::O_NONBLOCK | libc::O_DIRECTORY,
+    ];
+    let mut id = 0;
+    for target in [&b"file"[..], b"dir", b"fifo"] {
+        for flags in flagsets {
+            let (top, rootdir) = crate::setup_case_dir(ctx, "rfcase", &spec);
+            let labels = crate::tree::Labels::of_tree(&spec, &rootdir);
+            let root = Root::open(&rootdir).expect("open root");
+            let handle = root.resolve(ops::p(target)).expect("resolve handle");
+            let n = handle.as_fd().as_raw_fd();
+            let mut one = |fault: Option<(usize, i32)>, id: usize| -> usize {
+                let mut s = format!(
+                    "case rf{id}\nmeta seed={seed} suite=reopen target={} nofollow=0 history=none fdnum={n}\ntree {}\n",
+                    String::from_utf8_lossy(target),
+                    spec.entries.len()
+                );
+                s.push_str(&spec.lines());
+                s.push_str(&format!("op reopen 0 {} {}\n", flags, hex(target)));
+                s.push_str(&crate::cfg_line(&root, false, pathrs::flags::ResolverFlags::empty()));
+                s.push('\n');
+                s.push_str(&format!("handle {}\n", ops::describe_fd(n, &labels)));
+                match fault {
+                    Some((k, e)) => s.push_str(&format!("fault single at={k} errno={e}\n")),
+                    None => s.push_str("fault none\n"),
+                }
+                let ip: Option<Box<dyn Interposer>> =
+                    fault.map(|(k, e)| Box::new(Faulter(Fault::Single(k, e), 0)) as Box<dyn Interposer>);
+                let before = ops::fd_table();
+                let href = HandleRef::from_fd(unsafe { BorrowedFd::borrow_raw(n) });
+                let (r, log) = ops::recorded(ip, || href.reopen(OpenFlags::from_bits_retain(flags)));
+                let after = ops::fd_table();
+                s.push_str(&fmt::transcript(&log));
+                let ex = match r {
+                    Ok(Ok(f)) => {
+                        let fd: OwnedFd = f.into();
+                        s.push_str(&format!("res ok fd {}\n", ops::describe_fd(fd.as_raw_fd(), &labels)));
+                        let raw = fd.as_raw_fd();
+                        std::mem::forget(fd);
+                        Some(raw)
+                    }
+                    Ok(Err(e)) => {
+                        s.push_str(&format!("res err {}\n", ops::kind_str(&e.kind())));
+                        None
+                    }
+                    Err(m) => {
+                        s.push_str(&format!("res panic {}\n", hex(m.as_bytes())));
+                        None
+                    }
+                };
+                s.push_str(&ops::fd_table_diff(&before, &after, ex));
+                s.push_str("\nend\n");
+                if let Some(raw) = ex {
+                    unsafe { libc::close(raw) };
+                }
+                ctx.out.write_all(s.as_bytes()).unwrap();
+                log.len()
+            };
+            id += 1;
+            let ncalls = one(None, id);
+            for k in 0..ncalls {
+                for e in ERRNOS {
+                    id += 1;
+                    one(Some((k, *e)), id);
+                }
+            }
+            drop(handle);
+            drop(root);
+            let _ = fs::remove_dir_all(&top);
+        }
+    }
+}
+
